@@ -97,6 +97,25 @@ func eval(c Case) *pbt.Fail {
 				return pbt.Failf(key, "%s(%s) returned error %v on a well-formed file", entry, enc.name, err)
 			}
 			diffs := exifcheck.Compare(e, c.Rec, c.Ctx)
+			if len(diffs) > 0 {
+				// text values longer than the reader's window: a recorded finding exactly when the library reports
+				// them as absent and everything else is right
+				window, kind := 4095, "bufio-reader"
+				if entry == "ExifParse" {
+					window, kind = 1023, "plain-reader"
+				}
+				drop := *c.Rec
+				dropped := 0
+				for _, f := range []**string{&drop.ImageDescription, &drop.Software, &drop.Copyright} {
+					if *f != nil && len(**f) > window {
+						*f = nil
+						dropped++
+					}
+				}
+				if dropped > 0 && len(exifcheck.Compare(e, &drop, c.Ctx)) == 0 {
+					return pbt.Failf("long-text:"+kind, "%s(%s): %d text value(s) longer than %d bytes are reported as absent (everything else is exact): %s", entry, enc.name, dropped, window, strings.Join(diffs, "; "))
+				}
+			}
 			wantType := imagetype.ImageTiff
 			if c.Rec.DNGVersion {
 				wantType = imagetype.ImageDNG
@@ -139,6 +158,7 @@ var chkBig = pbt.Check[Case]{Name: "record-roundtrip-pending-limit", Eval: eval,
 var chkHeavy = pbt.Check[Case]{Name: "record-roundtrip-consumed-plus-pending", Eval: eval, Gen: genWith(gen.Options{Unbuffered: true, HeavyWriter: true}, "")}
 var chkMany = pbt.Check[Case]{Name: "record-roundtrip-entry-limit", Eval: eval, Gen: genWith(gen.Options{Unbuffered: true, ManyEntries: true}, "")}
 var chkManyBuf = pbt.Check[Case]{Name: "record-roundtrip-entry-limit-buffered", Eval: eval, Gen: genWith(gen.Options{ManyEntries: true}, "")}
+var chkLong = pbt.Check[Case]{Name: "record-roundtrip-long-text", Eval: eval, Gen: genWith(gen.Options{Unbuffered: true, LongText: true, MaxForeign: 2}, "")}
 var chkSub = pbt.Check[Case]{Name: "record-roundtrip-ext-subsec", Eval: eval, Gen: genWith(gen.Options{Unbuffered: true, ExtSubSecDigits: true}, "subsec-digits")}
 
 func init() {
@@ -148,6 +168,7 @@ func init() {
 	pbt.Register(chkSub)
 	pbt.Register(chkMany)
 	pbt.Register(chkManyBuf)
+	pbt.Register(chkLong)
 }
 
 func TestProp(t *testing.T) {
@@ -200,6 +221,9 @@ func TestProp(t *testing.T) {
 		return
 	}
 	if !pbt.Run(t, rec, chkManyBuf, rec.Env.Pick(300, 6000), 6) {
+		return
+	}
+	if !pbt.Run(t, rec, chkLong, rec.Env.Pick(300, 6000), 7) {
 		return
 	}
 	pbt.Run(t, rec, chkSub, rec.Env.Pick(300, 3000), 3)
